@@ -46,6 +46,7 @@ struct Cfg {
   // events {kind,a,b} applied before the search starts: the search then explores from a non-initial state (they are
   // part of every history and of every replay, but do not count against the depth and per-kind budgets)
   std::vector<std::array<int, 3>> preamble;
+  int         depth_cut = 0; // explored to (family depth - depth_cut): for scripted starts that already lie deep
   int         nservers = 1;
   int         tries = 2;
   int         timeout_ms = 2000;
@@ -69,6 +70,7 @@ struct Cfg {
   std::string sortlist;  // ares_set_sortlist string
   std::string hostaliases; // HOSTALIASES file content
   bool        local_bind = false;
+  bool        socket_cbs = false;   // the application installs ares_set_socket_configure_callback() and ares_set_socket_callback() (either may reject a socket)
   int         ednspsz = 0;
   bool        whole_second_clock = false;
   int         tcp_read_chunk = 0;   // >0: every TCP read returns at most this many bytes
@@ -167,7 +169,7 @@ extern const char *rk_names[];
 enum Forge { FG_WRONGID = 0, FG_WRONGNAME, FG_WRONGTYPE, FG_WRONGCLASS, FG_CASEFLIP, FG_WRONGSRC, FG_OTHERSOCK, FG_NOCOOKIE, FG_BADCLIENTCOOKIE, FG_WRONGSRC_FRAMED, FG_NOCOOKIE_TC, FG_NKINDS };
 extern const char *fg_names[];
 
-enum FaultSite { FS_SOCKET = 0, FS_SETSOCKOPT, FS_BIND, FS_CONNECT, FS_GETSOCKNAME, FS_SEND_REFUSED, FS_SEND_WOULDBLOCK, FS_SEND_SHORT, FS_RECV_RESET, FS_SEND_EINTR, FS_RECV_EINTR, FS_SEND_ENOBUFS, FS_SOCKET_EAGAIN, FS_NSITES };
+enum FaultSite { FS_SOCKET = 0, FS_SETSOCKOPT, FS_BIND, FS_CONNECT, FS_GETSOCKNAME, FS_SEND_REFUSED, FS_SEND_WOULDBLOCK, FS_SEND_SHORT, FS_RECV_RESET, FS_SEND_EINTR, FS_RECV_EINTR, FS_SEND_ENOBUFS, FS_SOCKET_EAGAIN, FS_SOCKCFGCB, FS_SOCKCB, FS_NSITES };
 extern const char *fs_names[];
 
 // ------------------------------------------------------------------ records
